@@ -58,6 +58,9 @@ func (l *clusterLink) start() {
 	oc := l.cfg.outputConfig(l.runID, l.cpName)
 	l.ctx, l.cancel = context.WithCancel(context.Background())
 	l.ro = syncer.NewRedisOutput(oc)
+	l.mu.Lock()
+	l.spErr, l.sendErr, l.phase = nil, nil, 0
+	l.mu.Unlock()
 	go func() {
 		sp, err := l.ro.StartPoint(l.ctx, []string{l.runID})
 		if err != nil {
@@ -153,6 +156,17 @@ func (l *clusterLink) step(extra []pipeAction) {
 }
 
 func (l *clusterLink) stop() {
+	// let every in-flight request complete first: the cluster client takes its topology lock (a real
+	// sync.RWMutex) in Close/update while other goroutines wait for replies; a goroutine blocked on a real
+	// mutex is not durably blocked and would stall the bubble (DESIGN.md §5).
+	for i := 0; i < 500; i++ {
+		l.r.Settle()
+		rc := l.ready()
+		if len(rc) == 0 {
+			break
+		}
+		rc[0].node.Step(rc[0].ss)
+	}
 	l.cancel()
 	l.mu.Lock()
 	if l.reader != nil {
